@@ -44,6 +44,15 @@ GRAM = ["SELECT * FROM t1 WHERE a = 1;", "CREATE VIEW v1 AS SELECT a, b FROM t1 
         "ALTER TABLE t1 DEFAULT CHARACTER SET utf8mb4 COLLATE utf8mb4_bin;", "ALTER TABLE t1 DISABLE TRIGGER ALL;",
         "select * from t1 where a = 1;", "create view v1 as select a from t1;", "SELECT a,\n  b\nFROM t1\nWHERE a = 1;",
         "CREATE VIEW v1 AS\n  SELECT a\n  FROM t1;", "CREATE OR REPLACE VIEW v AS SELECT 1;"]
+# realistic statements at the edge of what the grammar knows: whatever the parser makes of them, silent=True never raises, silent=False
+# raises nothing but DDLParserError, and when neither raises the two results agree
+ROBUST = ["CREATE TABLE tempdb..t (a int);", "DROP TABLE db..t;", "CREATE TABLE t (a int REFERENCES db..o (x));",
+          "CREATE TABLE t (a int) STAGE_FILE_FORMAT = (TYPE = CSV);", "CREATE TABLE t (a int, b int DEFAULT CAST(0 AS int), c int);",
+          "CREATE VIEW v AS SELECT x ^ 2 AS sq FROM a;", "CREATE TABLE t (a int, b int DEFAULT a ^ 2);", "SELECT a FROM t WHERE b = 'it''s' AND c ^ 1 = 0;",
+          "CREATE TABLE t (a int, b varchar(9) DEFAULT N'x' NOT NULL);", "CREATE TABLE t (a int, b bit(1) DEFAULT b'0');",
+          "CREATE TABLE t (a int, b numeric(10,2) DEFAULT -1.5 NOT NULL);", "CREATE TABLE t (a int DEFAULT ((0)), b int);",
+          "ALTER TABLE t1 ALTER COLUMN a SET DEFAULT nextval('s.q'::regclass);", "CREATE INDEX i1 ON t1 USING btree (a);",
+          "CREATE TABLE [dbo].[Order Details] ([Order ID] int);", "CREATE TABLE t (a int, b int) WITH (fillfactor=70);"]
 BAD_MODES = ["", "SQL", "Hql", "postgresql", "none", "bigquery ", "sql\n",
              # fragments and combinations of valid names
              "sq", "ql", "my", "snow", "big", "red", "spark", "db2", "post", " sql", "s", ",", ", ", "sql,hql", "sql, hql", "hql,", "ibm", "_"]
@@ -93,6 +102,10 @@ def gen_cases(tier):
         if tag == "ignored":
             continue  # statements the grammar rejects on purpose (silently dropped): not "supported DDL"
         cases.append({"kind": "gen", "ddl": ddl, "mode": (modes if tier != "thorough" else ALL_MODES)[n % (len(modes) if tier != "thorough" else len(ALL_MODES))]})
+    for ri in range(len(ROBUST)):
+        for si in range(len(SUP)):
+            for where in ("before", "after"):
+                cases.append({"kind": "robust", "r": ri, "sup": si, "where": where, "mode": modes[(ri + si) % len(modes)]})
     for bm in BAD_MODES:
         for silent in (True, False):
             cases.append({"kind": "badmode", "mode": bm, "silent": silent})
@@ -120,6 +133,18 @@ def evaluate(case):
         elif not all(m in r[2] or True for m in ("sql",)) or "sql" not in r[2] or "hql" not in r[2]:
             diffs.append(diff("message", "badmode-message", "lists valid modes", r[2]))
         return {"diffs": diffs, "nontrivial": True, "outcome": "badmode"}
+    if k == "robust":
+        lines = list(SUP[case["sup"]])
+        ddl = "\n".join([ROBUST[case["r"]]] + lines if case["where"] == "before" else lines + [ROBUST[case["r"]]])
+        s = run_ddl(ddl, {"silent": True}, {"output_mode": case["mode"]})
+        l = run_ddl(ddl, {"silent": False}, {"output_mode": case["mode"]})
+        if s[0] != "ok" and s[1] != "ValueError":  # (ValueError: the documented error for ALTER / INDEX on an undefined table, C04)
+            diffs.append(diff("silent=True", "silent-raises", "no exception", s[1:3]))
+        if l[0] != "ok" and not (l[1] == "DDLParserError" and l[3]) and l[1] != "ValueError":
+            diffs.append(diff("silent=False", "loud-wrong-exception", "DDLParserError or a result", l[1:3]))
+        if s[0] == "ok" and l[0] == "ok" and s != l:
+            diffs.append(diff("silent vs loud", "silent-loud-differ", short(s), short(l)))
+        return {"diffs": diffs, "nontrivial": True, "outcome": "robust:" + l[0]}
     if k in ("sup", "gen"):
         ddl = case["ddl"] if k == "gen" else script(case)
         s = run_ddl(ddl, {"silent": True}, {"output_mode": case["mode"]})
@@ -169,6 +194,8 @@ def features(case):
 
 
 def describe(case):
+    if case["kind"] == "robust":
+        return {"statement": ROBUST[case["r"]], "placed": case["where"], "script": SUP[case["sup"]], "mode": case["mode"]}
     if case["kind"] in ("ins", "ins2", "sup"):
         return {"ddl": script(case), "mode": case["mode"], "kind": case["kind"]}
     return {k: (v[:300] if isinstance(v, str) else v) for k, v in case.items()}
@@ -177,6 +204,9 @@ def describe(case):
 def snippet(case):
     if case["kind"] in ("ins", "ins2", "sup"):
         return _snip(script(case), {"silent": False}, {"output_mode": case["mode"]}) + "# and with silent=True\n"
+    if case["kind"] == "robust":
+        lines = list(SUP[case["sup"]])
+        return _snip("\n".join([ROBUST[case["r"]]] + lines if case["where"] == "before" else lines + [ROBUST[case["r"]]]), {"silent": True}, {"output_mode": case["mode"]})
     if case["kind"] == "corpus":
         return _snip(case["ddl"], dict(case["ctor"], silent=False), {"output_mode": case["mode"]})
     if case["kind"] == "gen":
